@@ -6,6 +6,8 @@ import (
 	"strings"
 	"sync"
 
+	v1 "k8s.io/api/core/v1"
+
 	"volcano.sh/volcano/pkg/scheduler/api"
 	"volcano.sh/volcano/pkg/scheduler/cache"
 	"volcano.sh/volcano/pkg/scheduler/util"
@@ -20,8 +22,34 @@ type bindCase struct {
 	Jobs    []sched.JobSpec
 	Tasks   []sched.TaskSpec
 	Workers int64
-	Exact   bool       // true: the harness serialises the calls itself and compares the exact error class
-	Calls   [][3]int64 // (job, task, node) named by the BindContext
+	Exact   bool   // true: the harness serialises the calls itself and compares the exact error class
+	Items   []item // the history: AddBindTask calls and the cache events delivered in between
+}
+
+// item kinds (model: C02/Entry.v dBindReq)
+const (
+	itBind        = 0 // Bind = (job, task, node) named by the BindContext
+	itNode        = 1 // node add / update event with this object
+	itTerminating = 2 // pod update: deletionTimestamp set
+	itDelete      = 3 // pod deleted
+	itPodAdd      = 4 // a pod arrives (possibly before its node)
+)
+
+type item struct {
+	Kind int64
+	Bind [3]int64
+	Node sched.NodeSpec
+	Task int64
+	Pod  sched.TaskSpec
+}
+
+func (b bindCase) hasEvents() bool {
+	for _, it := range b.Items {
+		if it.Kind != itBind {
+			return true
+		}
+	}
+	return false
 }
 
 func (b bindCase) enc() []int64 {
@@ -37,9 +65,21 @@ func (b bindCase) enc() []int64 {
 	for _, t := range b.Tasks {
 		out = append(out, t.ID, t.Job, t.Role, t.Prio, t.CPU, t.Mem, t.GPU, t.Status, t.Node, vh.B(t.Preemptable))
 	}
-	out = append(out, b.Workers, vh.B(b.Exact), int64(len(b.Calls)))
-	for _, c := range b.Calls {
-		out = append(out, c[0], c[1], c[2])
+	out = append(out, b.Workers, vh.B(b.Exact), int64(len(b.Items)))
+	for _, it := range b.Items {
+		out = append(out, it.Kind)
+		switch it.Kind {
+		case itBind:
+			out = append(out, it.Bind[0], it.Bind[1], it.Bind[2])
+		case itNode:
+			n := it.Node
+			out = append(out, n.ID, vh.B(n.Has), n.CPU, n.Mem, n.Pods, n.GPU)
+		case itTerminating, itDelete:
+			out = append(out, it.Task)
+		case itPodAdd:
+			t := it.Pod
+			out = append(out, sched.EpsUnits, t.ID, t.Job, t.Role, t.Prio, t.CPU, t.Mem, t.GPU, t.Status, t.Node, vh.B(t.Preemptable))
+		}
 	}
 	return out
 }
@@ -62,7 +102,27 @@ func decBind(in []int64) bindCase {
 	})
 	b.Workers = r.Next()
 	b.Exact = r.Bool()
-	r.List(func() { b.Calls = append(b.Calls, [3]int64{r.Next(), r.Next(), r.Next()}) })
+	r.List(func() {
+		it := item{Kind: r.Next()}
+		switch it.Kind {
+		case itBind:
+			it.Bind = [3]int64{r.Next(), r.Next(), r.Next()}
+		case itNode:
+			it.Node = sched.NodeSpec{ID: r.Next(), Has: r.Bool(), CPU: r.Next(), Mem: r.Next(), Pods: r.Next(), GPU: r.Next()}
+		case itTerminating, itDelete:
+			it.Task = r.Next()
+		case itPodAdd:
+			_ = r.Next()
+			it.Pod = sched.TaskSpec{ID: r.Next(), Job: r.Next(), Role: r.Next(), Prio: r.Next(), CPU: r.Next(), Mem: r.Next(),
+				GPU: r.Next(), Status: r.Next(), Node: r.Next(), Preemptable: r.Bool()}
+		default:
+			panic("unknown item kind")
+		}
+		b.Items = append(b.Items, it)
+	})
+	if b.hasEvents() {
+		b.Exact = true // the position of an event among the calls is only known when the harness serialises
+	}
 	if b.Workers < 1 {
 		b.Workers = 1
 	}
@@ -99,18 +159,36 @@ func errClass(err error) int64 {
 // all calls; otherwise the callers run free, the accepted calls are ordered by the cache's own
 // BindFlowChannel (the send happens inside sc.Mutex) and the refused ones -- which change
 // nothing -- are appended after them.
-func runConcurrent(n int, workers int, exact bool, call func(i int) error, acceptedOrder func() []int) ([]int, []error) {
+func runConcurrent(n int, workers int, exact bool, call func(i int) error, acceptedOrder func() []int, barrier func(i int) bool) ([]int, []error) {
 	errs := make([]error, n)
 	var order []int
 	var mu sync.Mutex
 	var wg sync.WaitGroup
 	start := make(chan struct{})
+	// cache events are barriers: an event starts when everything before it in the history is done,
+	// and nothing after it starts before it is done; the calls between two events run freely.
+	var gate sync.Mutex
+	cond := sync.NewCond(&gate)
+	done := make([]bool, n)
+	canStart := func(i int) bool {
+		for j := 0; j < i; j++ {
+			if !done[j] && (barrier(i) || barrier(j)) {
+				return false
+			}
+		}
+		return true
+	}
 	for g := 0; g < workers; g++ {
 		wg.Add(1)
 		go func(g int) {
 			defer wg.Done()
 			<-start
 			for i := g; i < n; i += workers {
+				gate.Lock()
+				for !canStart(i) {
+					cond.Wait()
+				}
+				gate.Unlock()
 				if exact {
 					mu.Lock()
 					errs[i] = call(i)
@@ -119,6 +197,10 @@ func runConcurrent(n int, workers int, exact bool, call func(i int) error, accep
 				} else {
 					errs[i] = call(i)
 				}
+				gate.Lock()
+				done[i] = true
+				cond.Broadcast()
+				gate.Unlock()
 			}
 		}(g)
 	}
@@ -150,6 +232,52 @@ func unknownTask(jid, tid int64) *api.TaskInfo {
 	return api.NewTaskInfo(sched.TaskSpec{ID: tid, Job: jid, Role: 1, CPU: 100, Status: sched.SPending}.Pod())
 }
 
+// nodeObject: the node object of an event; the revision label changes with every delivery so that
+// an update with the same allocatable is still a different object.
+var nodeRev int
+
+func nodeObject(n sched.NodeSpec) *v1.Node {
+	o := n.Object()
+	nodeRev++
+	o.Labels = map[string]string{"verif/rev": fmt.Sprint(nodeRev)}
+	o.Annotations = map[string]string{"verif/note": fmt.Sprint(nodeRev % 3)}
+	return o
+}
+
+// terminatingPod: the pod of the spec with a deletionTimestamp (Running + terminating = Releasing)
+func terminatingPod(t sched.TaskSpec) *v1.Pod {
+	t.Status = sched.SReleasing
+	return t.Pod()
+}
+
+// finalSpecs: what law 112 judges against -- the last delivered object of every node and every pod
+// that was ever delivered.
+func (b bindCase) finalSpecs() bindCase {
+	out := bindCase{Jobs: b.Jobs, Workers: b.Workers, Exact: b.Exact}
+	last := map[int64]sched.NodeSpec{}
+	order := []int64{}
+	for _, n := range b.Nodes {
+		last[n.ID] = n
+		order = append(order, n.ID)
+	}
+	out.Tasks = append(out.Tasks, b.Tasks...)
+	for _, it := range b.Items {
+		switch it.Kind {
+		case itNode:
+			if _, ok := last[it.Node.ID]; !ok {
+				order = append(order, it.Node.ID)
+			}
+			last[it.Node.ID] = it.Node
+		case itPodAdd:
+			out.Tasks = append(out.Tasks, it.Pod)
+		}
+	}
+	for _, id := range order {
+		out.Nodes = append(out.Nodes, last[id])
+	}
+	return out
+}
+
 // runBind: selector 2.
 func runBind(in []int64) ([]int64, []int64) {
 	b := decBind(in)
@@ -161,8 +289,17 @@ func runBind(in []int64) ([]int64, []int64) {
 	}
 	tasks := append([]sched.TaskSpec{}, b.Tasks...)
 	sort.Slice(tasks, func(i, j int) bool { return tasks[i].ID < tasks[j].ID })
+	curPod := map[int64]*v1.Pod{}
+	specOf := map[int64]sched.TaskSpec{}
 	for _, t := range tasks {
-		sc.AddPod(t.Pod())
+		curPod[t.ID] = t.Pod()
+		specOf[t.ID] = t
+		sc.AddPod(curPod[t.ID])
+	}
+	for _, it := range b.Items {
+		if it.Kind == itPodAdd {
+			specOf[it.Pod.ID] = it.Pod
+		}
 	}
 	// every worker decides on its own snapshot, taken before any bind: clones of the cache's tasks
 	snap := map[int64]*api.TaskInfo{}
@@ -171,12 +308,18 @@ func runBind(in []int64) ([]int64, []int64) {
 			snap[sched.ParseID(string(t.UID))] = t.Clone()
 		}
 	}
-	ctxs := make([]*cache.BindContext, len(b.Calls))
+	ctxs := make([]*cache.BindContext, len(b.Items))
 	index := map[*cache.BindContext]int{}
-	for i, c := range b.Calls {
+	for i, it := range b.Items {
+		if it.Kind != itBind {
+			continue
+		}
+		c := it.Bind
 		var ti *api.TaskInfo
 		if s, ok := snap[c[1]]; ok {
 			ti = s.Clone()
+		} else if sp, ok := specOf[c[1]]; ok {
+			ti = api.NewTaskInfo(sp.Pod()) // a pod that arrives later, seen by a worker's later snapshot
 		} else {
 			ti = unknownTask(c[0], c[1])
 		}
@@ -185,23 +328,57 @@ func runBind(in []int64) ([]int64, []int64) {
 		ctxs[i] = &cache.BindContext{TaskInfo: ti, Extensions: map[string]cache.BindContextExtension{}}
 		index[ctxs[i]] = i
 	}
-	order, errs := runConcurrent(len(b.Calls), int(b.Workers), b.Exact,
-		func(i int) error { return sc.AddBindTask(ctxs[i]) },
+	var evMu sync.Mutex
+	step := func(i int) error {
+		it := b.Items[i]
+		switch it.Kind {
+		case itBind:
+			return sc.AddBindTask(ctxs[i])
+		case itNode:
+			if err := sc.AddOrUpdateNode(nodeObject(it.Node)); err != nil {
+				panic(err)
+			}
+		case itTerminating:
+			evMu.Lock()
+			old := curPod[it.Task]
+			nw := terminatingPod(specOf[it.Task])
+			curPod[it.Task] = nw
+			evMu.Unlock()
+			sc.UpdatePod(old, nw)
+		case itDelete:
+			evMu.Lock()
+			old := curPod[it.Task]
+			evMu.Unlock()
+			sc.DeletePod(old)
+		case itPodAdd:
+			p := it.Pod.Pod()
+			evMu.Lock()
+			curPod[it.Pod.ID] = p
+			evMu.Unlock()
+			sc.AddPod(p)
+		}
+		return nil
+	}
+	order, errs := runConcurrent(len(b.Items), int(b.Workers), b.Exact, step,
 		func() []int {
 			out := []int{}
 			for len(sc.BindFlowChannel) > 0 {
 				out = append(out, index[<-sc.BindFlowChannel])
 			}
 			return out
-		})
+		}, func(i int) bool { return b.Items[i].Kind != itBind })
 	for len(sc.BindFlowChannel) > 0 {
 		<-sc.BindFlowChannel
 	}
 	replay := b
-	replay.Calls = nil
+	replay.Items = nil
 	got := []int64{int64(len(order))}
 	for _, i := range order {
-		replay.Calls = append(replay.Calls, b.Calls[i])
+		replay.Items = append(replay.Items, b.Items[i])
+		if b.Items[i].Kind != itBind {
+			got = append(got, 9)
+			continue
+		}
 		cls := errClass(errs[i])
 		if !b.Exact && cls != 0 {
 			cls = 1
@@ -237,17 +414,15 @@ func runBind(in []int64) ([]int64, []int64) {
 		held = append(held, n, int64(len(tids)))
 		held = append(held, tids...)
 	}
-	lastHeld = held
+	lastLaw = append(replay.finalSpecs().enc(), held...)
 	return replay.enc(), got
 }
 
-// what the nodes hold after the calls, read from the real cache (law 112 input)
-var lastHeld []int64
+// law 112 input: the case with every node / pod as last delivered + what the real nodes hold
+var lastLaw []int64
 
 func bindLaws(in []int64, law func(lsel int, lin []int64, sig string)) {
-	lin := append([]int64{}, in...)
-	lin = append(lin, lastHeld...)
-	law(112, lin, "")
+	law(112, lastLaw, "")
 }
 
 // ---------- generator ----------
@@ -339,7 +514,7 @@ func genBindCase(r *vh.Rng) (bindCase, bool) {
 				c[0], c[1] = t2.Job, t2.ID
 			}
 		}
-		b.Calls = append(b.Calls, c)
+		b.Items = append(b.Items, item{Kind: itBind, Bind: c})
 		if asked[c[2]] == nil {
 			asked[c[2]] = map[int64]bool{}
 		}
@@ -365,7 +540,235 @@ func genBindCase(r *vh.Rng) (bindCase, bool) {
 			contended = true
 		}
 	}
-	return b, b.Workers >= 2 && len(b.Calls) >= 3 && contended
+	nt := b.Workers >= 2 && len(b.Items) >= 3 && contended
+	// half of the cases: cache events delivered between the calls (round 3)
+	er := r.Fork()
+	if er.Chance(1, 2) {
+		free := map[int64][4]int64{}
+		for id, f := range room {
+			free[id] = [4]int64{f.cpu, f.mem, f.pods, f.gpu}
+		}
+		ev := weaveEvents(er, &b, free, tid, false)
+		nt = b.Workers >= 2 && ev
+	}
+	return b, nt
+}
+
+// weaveEvents inserts cache events into the history of b (which holds only calls so far).
+//
+//	before the first call ("prefix"): a node whose pods arrive before it (placeholder NodeInfo), a
+//	    pod arriving on a node with room, an allocatable decrease that still covers the node's pods
+//	    -- the cluster states delivered are themselves within capacity, the calls come after;
+//	between the calls: node updates with the same allocatable (labels / annotations changed), an
+//	    allocatable increase, pods turning terminating, pods deleted.
+//
+// One third of the histories is staged: a full node whose room is partly held by a terminating
+// pod, a node update, then calls for pods no larger than the terminating one.  Returns whether the
+// history delivers a node update to a node that holds a terminating pod and then a call aimed at it.
+func weaveEvents(r *vh.Rng, b *bindCase, free map[int64][4]int64, lastTid int64, agent bool) bool {
+	b.Exact = true
+	cur := map[int64]sched.NodeSpec{}
+	for _, n := range b.Nodes {
+		cur[n.ID] = n
+	}
+	nn := int64(len(b.Nodes))
+	var onNode, pending []sched.TaskSpec
+	for _, t := range b.Tasks {
+		if t.Node != 0 {
+			onNode = append(onNode, t)
+		} else {
+			pending = append(pending, t)
+		}
+	}
+	jobOf := func() int64 { return b.Tasks[r.Intn(len(b.Tasks))].Job }
+	tid := lastTid
+	if tid < 50 {
+		tid = 50 // ids of the pods that arrive as events
+	}
+	prefix := []item{}
+	// a node that arrives after its pods
+	if r.Chance(1, 3) {
+		late := sched.NodeSpec{ID: nn + 1, Has: true, CPU: int64(r.Range(2, 6)) * 500, Mem: int64(r.Range(4, 12)) << 20, Pods: int64(r.Range(4, 8))}
+		f := [4]int64{late.CPU, late.Mem, late.Pods, 0}
+		pods := []item{}
+		for k := 0; k < r.Range(1, 2); k++ {
+			ts := sched.TaskSpec{Job: jobOf(), Role: 1, CPU: int64(r.Range(1, 4)) * 250, Mem: int64(r.Range(1, 4)) << 19,
+				Status: vh.Pick(r, []int64{sched.SRunning, sched.SReleasing, sched.SBound}), Node: late.ID}
+			if f[0] < ts.CPU || f[1] < ts.Mem {
+				continue
+			}
+			f[0] -= ts.CPU
+			f[1] -= ts.Mem
+			f[2]--
+			tid++
+			ts.ID = tid
+			pods = append(pods, item{Kind: itPodAdd, Pod: ts})
+			onNode = append(onNode, ts)
+		}
+		if r.Chance(2, 3) {
+			prefix = append(prefix, pods...)
+			prefix = append(prefix, item{Kind: itNode, Node: late})
+		} else {
+			prefix = append(prefix, item{Kind: itNode, Node: late})
+			prefix = append(prefix, pods...)
+		}
+		cur[late.ID] = late
+		free[late.ID] = f
+		// aim some of the calls at it
+		for i := range b.Items {
+			if b.Items[i].Kind == itBind && r.Chance(1, 3) {
+				b.Items[i].Bind[2] = late.ID
+			}
+		}
+		nn++
+	}
+	// a pod that arrives on a node that has room for it
+	if r.Chance(1, 4) {
+		nid := int64(r.Range(1, int(nn)))
+		ts := sched.TaskSpec{Job: jobOf(), Role: 1, CPU: int64(r.Range(1, 3)) * 250, Mem: 1 << 19, Status: vh.Pick(r, []int64{sched.SRunning, sched.SReleasing}), Node: nid}
+		f := free[nid]
+		if f[0] >= ts.CPU && f[1] >= ts.Mem && f[2] >= 1 {
+			f[0] -= ts.CPU
+			f[1] -= ts.Mem
+			f[2]--
+			free[nid] = f
+			tid++
+			ts.ID = tid
+			prefix = append(prefix, item{Kind: itPodAdd, Pod: ts})
+			onNode = append(onNode, ts)
+		}
+	}
+	// an allocatable decrease that still covers what the node holds
+	if r.Chance(1, 4) {
+		nid := int64(r.Range(1, int(nn)))
+		n, f := cur[nid], free[nid]
+		cut := (f[0] / 250) * 250 * int64(r.Range(0, 2)) / 2
+		n.CPU -= cut
+		f[0] -= cut
+		cur[nid], free[nid] = n, f
+		prefix = append(prefix, item{Kind: itNode, Node: n})
+	}
+	calls := b.Items
+	staged := r.Chance(1, 3) && len(pending) > 0
+	type timed struct {
+		at float64
+		it item
+	}
+	evs := []timed{}
+	at := func(lo, hi int) float64 { return float64(r.Range(lo, hi)) - 0.5 + float64(r.Intn(100))/1000 }
+	nc := len(calls)
+	hit := false
+	holdsTerminating := map[int64]bool{}
+	for _, t := range onNode {
+		if t.Status == sched.SReleasing {
+			holdsTerminating[t.Node] = true
+		}
+	}
+	if staged {
+		// the node is full and part of what it holds is terminating: a node update must not turn
+		// the terminating pod's room into free room
+		nid := int64(r.Range(1, int(len(b.Nodes))))
+		f := free[nid]
+		big := sched.TaskSpec{Job: jobOf(), Role: 1, CPU: f[0], Mem: f[1] / 2, Status: sched.SReleasing, Node: nid}
+		if big.CPU >= 250 && f[2] >= 1 {
+			tid++
+			big.ID = tid
+			f[0], f[1], f[2] = 0, f[1]-big.Mem, f[2]-1
+			free[nid] = f
+			prefix = append(prefix, item{Kind: itPodAdd, Pod: big})
+			onNode = append(onNode, big)
+			holdsTerminating[nid] = true
+		}
+		for i := range calls {
+			if r.Chance(2, 3) {
+				calls[i].Bind[2] = nid
+			}
+		}
+		evs = append(evs, timed{at(0, 1), item{Kind: itNode, Node: cur[nid]}})
+		if r.Chance(1, 2) {
+			evs = append(evs, timed{at(0, nc), item{Kind: itNode, Node: cur[nid]}})
+		}
+	}
+	// pods turning terminating, pods going away
+	termAt := map[int64]float64{}
+	for k := 0; k < r.Range(0, 2) && len(onNode) > 0; k++ {
+		t := vh.Pick(r, onNode)
+		if _, done := termAt[t.ID]; done || t.Status == sched.SReleasing || t.Status == sched.SPending {
+			continue
+		}
+		termAt[t.ID] = at(0, nc)
+		evs = append(evs, timed{termAt[t.ID], item{Kind: itTerminating, Task: t.ID}})
+		holdsTerminating[t.Node] = true
+	}
+	deleted := map[int64]bool{}
+	if r.Chance(1, 3) && len(onNode) > 0 {
+		t := vh.Pick(r, onNode)
+		lo := 0
+		if ta, ok := termAt[t.ID]; ok {
+			lo = int(ta+0.5) + 1
+		}
+		if lo <= nc {
+			evs = append(evs, timed{at(lo, nc) + 0.2, item{Kind: itDelete, Task: t.ID}})
+			deleted[t.ID] = true
+		}
+	}
+	if !agent && r.Chance(1, 6) && len(pending) > 0 {
+		t := vh.Pick(r, pending)
+		evs = append(evs, timed{at(0, nc), item{Kind: itDelete, Task: t.ID}})
+	}
+	// node updates: same allocatable (the common informer resync / label change), or more of it
+	for k := 0; k < r.Range(1, 3); k++ {
+		nid := int64(r.Range(1, int(nn)))
+		n := cur[nid]
+		when := at(0, nc)
+		if r.Chance(1, 4) {
+			n.CPU += int64(r.Range(1, 4)) * 250
+			cur[nid] = n
+		}
+		evs = append(evs, timed{when, item{Kind: itNode, Node: n}})
+	}
+	sort.SliceStable(evs, func(i, j int) bool { return evs[i].at < evs[j].at })
+	// allocatable only grows along the woven events: re-issue them in time order with the
+	// running object of each node
+	run := map[int64]sched.NodeSpec{}
+	for _, it := range prefix {
+		if it.Kind == itNode {
+			run[it.Node.ID] = it.Node
+		}
+	}
+	for _, n := range b.Nodes {
+		if _, ok := run[n.ID]; !ok {
+			run[n.ID] = n
+		}
+	}
+	out := append([]item{}, prefix...)
+	ei := 0
+	updated := map[int64]bool{}
+	for i := 0; i <= nc; i++ {
+		for ei < len(evs) && evs[ei].at < float64(i)+0.5 {
+			it := evs[ei].it
+			if it.Kind == itNode {
+				prev := run[it.Node.ID]
+				if it.Node.CPU < prev.CPU {
+					it.Node.CPU = prev.CPU
+				}
+				run[it.Node.ID] = it.Node
+				if holdsTerminating[it.Node.ID] {
+					updated[it.Node.ID] = true
+				}
+			}
+			out = append(out, it)
+			ei++
+		}
+		if i < nc {
+			out = append(out, calls[i])
+			if updated[calls[i].Bind[2]] {
+				hit = true
+			}
+		}
+	}
+	b.Items = out
+	return hit
 }
 
 func genBind(rng *vh.Rng, n int, emit func(id string, sel int, in []int64, kind string, nontrivial bool, desc any)) {
@@ -373,8 +776,8 @@ func genBind(rng *vh.Rng, n int, emit func(id string, sel int, in []int64, kind 
 	for i := 0; i < k; i++ {
 		r := rng.Fork()
 		b, nt := genBindCase(r)
-		kind := fmt.Sprintf("bind/cache/exact=%v", b.Exact)
-		desc := map[string]any{"nodes": len(b.Nodes), "tasks": len(b.Tasks), "workers": b.Workers, "calls": len(b.Calls)}
+		kind := fmt.Sprintf("bind/cache/exact=%v/events=%v", b.Exact, b.hasEvents())
+		desc := map[string]any{"nodes": len(b.Nodes), "tasks": len(b.Tasks), "workers": b.Workers, "items": len(b.Items)}
 		emit(fmt.Sprintf("bind-%d", i), 2, b.enc(), kind, nt, desc)
 	}
 }
